@@ -1239,3 +1239,75 @@ package raft
 //@   localonly
 //@   ensures  answered: answered(req.deferError)
 //@   at call (*deferError).respond#3 assert stamp_follows_restored_snapshot: arg1 == nil && lastIndex == meta.Index && lastTerm == meta.Term
+
+// ---------------------------------------------------------------------------
+// C16 (sliver): NetworkTransport never reuses a connection whose request/response framing may be off.
+// Ghost: ioErrors counts failed reads/writes/encodes/decodes on any connection (assumed contracts of
+// bufio and the msgpack codec); released[c] is set by (*netConn).Release.
+
+//@ ghostvar ioErrors int
+//@ ghostvar released map[*netConn]bool
+
+//@ extern (*bufio.Writer).WriteByte(w, c)
+//@   modifies ioErrors
+//@   ensures  counted: (result != nil) == (ioErrors == old(ioErrors) + 1) && (result == nil) == (ioErrors == old(ioErrors))
+
+//@ extern (*bufio.Writer).Flush(w)
+//@   modifies ioErrors
+//@   ensures  counted: (result != nil) == (ioErrors == old(ioErrors) + 1) && (result == nil) == (ioErrors == old(ioErrors))
+
+//@ extern (*github.com/hashicorp/go-msgpack/v2/codec.Encoder).Encode(e, v)
+//@   modifies ioErrors
+//@   ensures  counted: (result != nil) == (ioErrors == old(ioErrors) + 1) && (result == nil) == (ioErrors == old(ioErrors))
+
+//@ extern (*github.com/hashicorp/go-msgpack/v2/codec.Decoder).Decode(d, v)
+//@   modifies ioErrors, allof("H.string."), boxes()
+//@   ensures  counted: (result != nil) == (ioErrors == old(ioErrors) + 1) && (result == nil) == (ioErrors == old(ioErrors))
+
+//@ func (n *netConn) Release
+//@   trusted closes the underlying net.Conn; the ghost flag released[n] records it
+//@   requires nonnil: n != nil
+//@   modifies released
+//@   ensures  marked: released[n] && (forall c *netConn :: c != n ==> released[c] == old(released[c]))
+
+//@ func sendRPC
+//@   requires nonnil: conn != nil && conn.w != nil && conn.enc != nil
+//@   modifies ioErrors, released
+//@   ensures  error_iff_io_failed: (result == nil) == (ioErrors == old(ioErrors))
+//@   ensures  failed_connection_released: result != nil ==> released[conn]
+//@   ensures  clean_connection_kept: result == nil ==> released == old(released)
+
+//@ func decodeResponse
+//@   requires nonnil: conn != nil && conn.dec != nil
+//@   modifies ioErrors, released, allof("H.string."), boxes()
+//@   ensures  reusable_iff_fully_decoded: result0 == (ioErrors == old(ioErrors))
+//@   ensures  failed_connection_released: !result0 ==> released[conn] && result1 != nil
+//@   ensures  clean_connection_kept: result0 ==> released == old(released)
+
+//@ func (n *NetworkTransport) genericRPC
+//@   requires nonnil: n != nil
+//@   localonly
+//@   ensures  failed_exchange_yields_error: result == nil ==> ioErrors == old(ioErrors)
+//@   at call (*NetworkTransport).returnConn#1 assert only_a_clean_connection_is_pooled: ioErrors == old(ioErrors) && released == old(released)
+
+// the pipeline: a request is put on the wire before its future is queued for decoding, the decoder
+// decodes into the response object of the very future it took from the queue, answers it and passes
+// that same future on (FIFO order of Go channels is not modelled; it is what makes "in send order" follow)
+
+//@ func (n *netPipeline) AppendEntries
+//@   requires nonnil: n != nil && n.conn != nil && n.conn.w != nil && n.conn.enc != nil && n.trans != nil
+//@   localonly
+//@   ensures  queued_only_after_a_clean_send: sent(n.inprogressCh) != old(sent(n.inprogressCh)) ==> ioErrors == old(ioErrors) && result1 == nil
+//@   ensures  future_pairs_request_and_response: sent(n.inprogressCh) != old(sent(n.inprogressCh)) ==> lastsent(n.inprogressCh).args == args && lastsent(n.inprogressCh).resp == resp && sent(n.inprogressCh) == old(sent(n.inprogressCh)) + 1
+//@   ensures  failed_send_yields_error: ioErrors != old(ioErrors) ==> result1 != nil && sent(n.inprogressCh) == old(sent(n.inprogressCh))
+//@   at call sendRPC#1 assert sends_the_callers_request: cast(arg2, *AppendEntriesRequest) == args && arg1 == rpcAppendEntries && arg0 == n.conn
+
+//@ func (n *netPipeline) decodeResponses
+//@   requires nonnil: n != nil && n.conn != nil && n.conn.dec != nil && n.trans != nil
+//@   noinference
+//@   localonly
+//@   loop 1 step answered_and_passed_on: received(n.inprogressCh) != old(received(n.inprogressCh)) ==> answered(lastreceived(n.inprogressCh).deferError) &&
+//@              (sent(n.doneCh) != old(sent(n.doneCh)) ==> sent(n.doneCh) == old(sent(n.doneCh)) + 1 && cast(lastsent(n.doneCh), *appendFuture) == lastreceived(n.inprogressCh))
+//@   loop 1 step nothing_passed_on_without_a_request: received(n.inprogressCh) == old(received(n.inprogressCh)) ==> sent(n.doneCh) == old(sent(n.doneCh))
+//@   at call decodeResponse#1 assert decodes_into_its_own_future: cast(arg1, *AppendEntriesResponse) == future.resp && arg0 == n.conn
+//@   at call (*deferError).respond#1 assert answers_with_the_decode_result: arg1 == err
